@@ -244,8 +244,22 @@ impl Exec for OwnExec {
                 Some(sl) => {
                     let c = match sl {
                         Slot::Region(r) => Slot::Region(r.clone()),
-                        Slot::Map(m) => Slot::Map(m.clone()),
-                        Slot::Arc(a) => Slot::Arc(a.clone()),
+                        // another handle on the same memory, also through GuestAddressSpace::memory() of &M / Rc<M> / Arc<M>
+                        // (via: 0 = Clone, 1 = the trait on a reference / the Arc itself, 2 = the trait on an Rc)
+                        Slot::Map(m) => match line["a"]["via"].as_u64().unwrap_or(0) {
+                            1 => Slot::Map(Clone::clone(GuestAddressSpace::memory(&m))),
+                            2 => {
+                                let rc = std::rc::Rc::new(m.clone());
+                                let t = GuestAddressSpace::memory(&rc);
+                                drop(rc);
+                                Slot::Map((*t).clone())
+                            }
+                            _ => Slot::Map(m.clone()),
+                        },
+                        Slot::Arc(a) => match line["a"]["via"].as_u64().unwrap_or(0) {
+                            0 => Slot::Arc(a.clone()),
+                            _ => Slot::Arc(GuestAddressSpace::memory(a)),
+                        },
                         Slot::Guard(g) => Slot::Guard(g.clone()),
                         Slot::Atomic(a) => Slot::Atomic(a.clone()),
                     };
